@@ -185,7 +185,7 @@ VARIANTS = [
     V("C10", "module stubs appended", GS, "        with file_path.open(\"w\", encoding=\"utf-8\") as f:\n            f.write(module_text)\n\n    created_module_paths", "        with file_path.open(\"a\", encoding=\"utf-8\") as f:\n            f.write(module_text)\n\n    created_module_paths", "C10.WRITE-MODE"),
     V("C10", "placeholder appended whenever file exists", GS, "    if Path.exists(file_path) and not first_creation:", "    if Path.exists(file_path):", "C10.WRITE-MODE"),
     V("C10", "created paths not threaded", GS, "        created_module_paths = _create_outside_package_class(class_, out_path, naming_convention, created_module_paths)", "        _create_outside_package_class(class_, out_path, naming_convention, set())", "C10.WRITE-MODE"),
-    V("C10", "api file named after package", "api_analyzer/cli/_cli.py", 'out_file_api = out_dir_path.joinpath(f"{src_dir_path.stem}__api.json")', 'out_file_api = out_dir_path.joinpath(f"{api.package}__api.json")', "C10.API-NAME"),
+    V("C10", "api file named after package", "api_analyzer/cli/_cli.py", 'out_file_api = out_dir_path.joinpath(f"{src_dir_path.name}__api.json")', 'out_file_api = out_dir_path.joinpath(f"{api.package}__api.json")', "C10.API-NAME"),
     V("C10", "paths not resolved", "api_analyzer/cli/_cli.py", "out_dir_path=args.out.resolve(),", "out_dir_path=args.out,", "C10.API-NAME"),
     V("C10", "leading underscores kept", GS, '        public_module_name = module_name.lstrip("_")', "        public_module_name = module_name", "C10.SAME-ORIGIN"),
     V("C10", "package module drops two segments", GS, 'corrected_module_dir = Path("/".join(module_dir.parts[:-1]))', 'corrected_module_dir = Path("/".join(module_dir.parts[:-2]))', "C10."),
@@ -371,4 +371,10 @@ VARIANTS += [
 ]
 VARIANTS += [
     V("C05", "literal-or-None shorthand for unions of any size", GEN, "            if len(type_data[\"types\"]) == 2 and literal_data:", "            if literal_data:", "C05.UNION-NORMAL"),
+]
+VARIANTS += [
+    V("C10", "module stub paths not registered", GS, "        if file_path.stem == file_path.parent.name:\n            created_module_paths.add(file_path.parent.relative_to(out_path).as_posix())\n", "", "C10.WRITE-MODE"),
+]
+VARIANTS += [
+    V("C10", "api file named after the stem of the source directory again", "api_analyzer/cli/_cli.py", 'f"{src_dir_path.name}__api.json"', 'f"{src_dir_path.stem}__api.json"', "C10.API-NAME"),
 ]
